@@ -6,6 +6,7 @@ mod c07;
 mod c08;
 mod c09;
 mod c10;
+mod c11;
 mod c14;
 mod c15;
 mod c16;
@@ -70,6 +71,7 @@ fn main() {
         "C08" => c08::run(&ctx),
         "C09" => c09::run(&ctx),
         "C10" => c10::run(&ctx),
+        "C11" => c11::run(&ctx),
         "C14" => c14::run(&ctx),
         "C15" => c15::run(&ctx),
         "C16" => c16::run(&ctx),
@@ -87,6 +89,7 @@ fn replay(id: &str, v: &serde_json::Value) -> i32 {
         "C08" => c08::replay(v),
         "C09" => c09::replay(v),
         "C10" => c10::replay(v),
+        "C11" => c11::replay(v),
         "C14" => c14::replay(v),
         "C15" => c15::replay(v),
         "C16" => c16::replay(v),
